@@ -710,6 +710,35 @@ def send_request_rule(A, cf, rule):
         raise AnalysisError('%s: no failure handler in %s' % (rule, fi.qualname))
 
 
+def http_session_rule(A, cf, rule):
+    """AsyncClient._send_request: _reset() closes the client's own HTTP session after every
+    connection, so a request is sent through a session that is neither missing nor closed: a
+    new one is created in both cases."""
+    if cf['name'] != 'asyncio':
+        return
+    fi = A.func(cf['cls'] + '._send_request')
+    ps = [p for p in A.paths(A.enum(follow_handlers=False), fi, A.model.cls(cf['cls']))
+          if p.outcome != 'cut']
+    n = 0
+    for p in ps:
+        v = PV(p)
+        use = [i for i, e in enumerate(v.ev) if e.kind == 'call' and
+               txt(e.expr).startswith('getattr(self.http')]
+        if not use:
+            continue
+        n += 1
+        ga = {atom(e.expr, e.pol) for e in v.ev[:use[0]] if e.kind == 'guard'}
+        created = any(e.kind == 'write' and txt(e.target) == 'self.http' and
+                      'ClientSession(' in txt(e.expr) for e in v.ev[:use[0]])
+        A.check(created or (('self.http is None', False) in ga and
+                            ('self.http.closed', False) in ga), rule + '.http-session',
+                'asyncio _send_request: the session used is a fresh one or one that is known to '
+                'be open', A.site(fi), key='asyncio-send-request-session', detail=v.describe(),
+                behaviour="the second connect() of a client object fails with RuntimeError("
+                          "'Session is closed') instead of connecting")
+    A.floor(rule, 'asyncio _send_request paths that use the session', n, 1)
+
+
 def trigger_rules(A, cf, rule):
     """The client's _trigger_event: handler calls are contained; the legacy (no-argument)
     disconnect retry is taken exactly for a disconnect event fired with its one argument."""
